@@ -1,5 +1,6 @@
 import BigtreeModel.CopyStore
 import BigtreeProofs.Lemmas.CopyStore
+import BigtreeProofs.Lemmas.CopyStoreGrow
 /-!
 # C07 — readers never alter or alias their input (Model A, `CopyStore`)
 
@@ -191,5 +192,75 @@ example :
     ∧ run (deepCopy s4 1).1 [.setParent 3 (some 2), .setParent 7 (some 6)]
         ≠ run (deepCopy s4 1).1 [.setParent 3 (some 2)] :=
   ⟨by unfold OneSided; decide, rfl, by decide, by decide⟩
+
+/-! ## histories that also attach fresh nodes
+
+`Node(name, parent=v)` allocates a fresh id, so the sides of a copy are no longer an id range: a
+`World` carries the side of every id and a grown node joins the side of the node it is attached to
+(`CopyStore.hstep`). -/
+
+/-- the store after `deepCopy s v` with its two sides: ids `< s.n` the original, ids `≥ s.n` the copy -/
+def copyWorld (s : Store) (v : Nat) : World := ⟨(deepCopy s v).1, fun i => decide (s.n ≤ i)⟩
+
+theorem copyWorld_ok (s : Store) (v : Nat) (hc : Closed s) :
+    Closed (copyWorld s v).st ∧ WSep (copyWorld s v) := by
+  obtain ⟨_, _, hsep, hcl, _⟩ := copy_fresh s v hc
+  refine ⟨hcl, ?_⟩
+  have := (sep_iff_ge _ _).mp hsep
+  intro i c hic
+  have h := this i c hic
+  exact ⟨fun p hp => by simpa [copyWorld] using h.1 p hp, fun ch hch => by simpa [copyWorld] using h.2 ch hch⟩
+
+/-- **no_alias_after_copy, with growth.** Any history on the copy — re-parenting, detaching,
+    `del children`, attribute changes, renames AND attaching brand-new nodes (which may in turn be
+    operated on) — leaves every cell of the original exactly as it was; and any such history on the
+    original leaves every cell of the copy as `deepCopy` made it. -/
+theorem no_alias_with_growth (s : Store) (v : Nat) (hc : Closed s) (ops : List HOp) :
+    (AllOn true (copyWorld s v) ops →
+      ∀ i, i < s.n → (hrun (copyWorld s v) ops).st.cell? i = s.cell? i)
+    ∧ (AllOn false (copyWorld s v) ops →
+      ∀ i, s.n ≤ i → i < s.n + s.n → (hrun (copyWorld s v) ops).st.cell? i = (deepCopy s v).1.cell? i) := by
+  obtain ⟨hcl, hsep⟩ := copyWorld_ok s v hc
+  have hn : (copyWorld s v).st.n = s.n + s.n := deepCopy_n s v
+  refine ⟨fun h i hi => ?_, fun h i h1 h2 => ?_⟩
+  · have := (hrun_frame true ops _ hcl hsep h).2.2 i (by rw [hn]; omega) (by simp [copyWorld]; omega)
+    rw [this]
+    exact (copy_fresh s v hc).1 i hi
+  · exact (hrun_frame false ops _ hcl hsep h).2.2 i (by rw [hn]; omega) (by simp [copyWorld]; omega)
+
+/-- interleaved histories with growth: as long as every operation acts on one side (as the sides
+    are at that moment), no link ever joins the two sides, and each single operation leaves the
+    other side's cells unchanged -/
+theorem mixed_growth_frame (w : World) (hc : Closed w.st) (hs : WSep w) (ops : List HOp)
+    (h : EachOneSided w ops) :
+    Closed (hrun w ops).st ∧ WSep (hrun w ops) :=
+  hrun_sep ops w hc hs h
+
+theorem growth_step_frame (w : World) (op : HOp) (b : Bool) (hc : Closed w.st) (hs : WSep w)
+    (ha : ∀ a ∈ op.args, w.side a = b) :
+    WSep (hstep w op) ∧ (∀ i, i < w.st.n → (hstep w op).side i = w.side i)
+      ∧ (∀ i, i < w.st.n → w.side i ≠ b → (hstep w op).st.cell? i = w.st.cell? i) :=
+  let h := hstep_frame w op b hc hs ha
+  ⟨h.2.1, h.2.2.2.1, h.2.2.2.2⟩
+
+/-- a one-node tree -/
+def s1 : Store := ⟨[⟨none, [], ['r'], []⟩]⟩
+
+/-- non-vacuity (the one-node case, where a copy that shared the child list with its original
+    would show): the copy of `s1` is cell 1; growing a child under the copy, then a grandchild under
+    that new node, is a history on the copy's side; it really changes the copy and leaves the
+    original cell 0 without children -/
+example : Closed s1
+    ∧ AllOn true (copyWorld s1 0) [.grow 1 ['n'], .grow 2 ['m'], .op (.setName 2 ['q'])]
+    ∧ ((hrun (copyWorld s1 0) [.grow 1 ['n'], .grow 2 ['m'], .op (.setName 2 ['q'])]).st.cell? 1).map (·.children) = some [2]
+    ∧ ((hrun (copyWorld s1 0) [.grow 1 ['n'], .grow 2 ['m'], .op (.setName 2 ['q'])]).st.cell? 2).map (·.children) = some [3]
+    ∧ ((hrun (copyWorld s1 0) [.grow 1 ['n'], .grow 2 ['m'], .op (.setName 2 ['q'])]).st.cell? 0) = s1.cell? 0 :=
+  ⟨closed_of_closedB s1 (by decide), by simp [AllOn, HOp.args, hstep, copyWorld, Op.args, s1, deepCopy, Store.n, grow, alloc], by decide, by decide, by decide⟩
+
+/-- and growing under the original is a history on the original's side that leaves the copy alone -/
+example : AllOn false (copyWorld s1 0) [.grow 0 ['n'], .grow 2 ['m']]
+    ∧ ((hrun (copyWorld s1 0) [.grow 0 ['n'], .grow 2 ['m']]).st.cell? 0).map (·.children) = some [2]
+    ∧ (hrun (copyWorld s1 0) [.grow 0 ['n'], .grow 2 ['m']]).st.cell? 1 = (deepCopy s1 0).1.cell? 1 :=
+  ⟨by simp [AllOn, HOp.args, hstep, copyWorld, s1, deepCopy, Store.n, grow, alloc], by decide, by decide⟩
 
 end C07
